@@ -1462,7 +1462,8 @@ fn sub_i256(c: &mut Case) -> CaseResult {
         Ok(())
     })??;
     // ToPrimitive narrowing conversions (used by casts): Some exactly when the value is representable
-    let known_to_i64 = AVOID_KNOWN && !c.strict && x.to_i128().is_some() && !fits_big(&a, 64);
+    // (fixed finding i256-ToPrimitive-to_i64-truncates: no longer excluded)
+    let known_to_i64 = false;
     if known_to_i64 {
         c.exclude("i256-ToPrimitive-to_i64-truncates");
     } else {
